@@ -654,7 +654,8 @@ func flowsToRequestD(c *Ctx, f *ssa.Function, prm *ssa.Parameter, depth int) (fe
 						if strings.Contains(strings.ToLower(name), "fee") || name == "Fixed" || name == "FixedMsat" {
 							// a limit of 0 is a limit: a JSON field that is left out when zero hands the decision to the
 							// node's default (CLN: 0.5 % / 5 sat)
-							if tag := reflect.StructTag(st.Tag(fa.Field)).Get("json"); strings.Contains(tag, ",omitempty") || strings.Contains(tag, ",omitzero") {
+							_, scalar := st.Field(fa.Field).Type().Underlying().(*types.Basic)
+							if tag := reflect.StructTag(st.Tag(fa.Field)).Get("json"); scalar && (strings.Contains(tag, ",omitempty") || strings.Contains(tag, ",omitzero")) {
 								return false, ret, "fee limit field " + name + " is tagged `" + tag + "`: a limit of 0 is not sent and the node applies its default"
 							}
 							return true, ret, "stored into field " + name
